@@ -22,8 +22,9 @@ import (
 )
 
 type c04Proc struct {
-	Name string `json:"name"`
-	Ctr  string `json:"ctr"`
+	Name string   `json:"name"`
+	Ctr  string   `json:"ctr"`
+	Ctrs []string `json:"ctrs"` // the counters the process increments, one after the other
 }
 
 type c04Run struct {
@@ -114,7 +115,7 @@ type c04World struct {
 	slots  []uint32 // slot (1-based) -> offset
 	ends   []uint32
 	files  map[string]*file
-	ctrs   map[string]*Counter
+	ctrs   map[string][]*Counter
 	begun  map[string]int
 	sched  *rt.Sched
 	step   int
@@ -236,7 +237,7 @@ func c04One(t *testing.T, run *c04Run) {
 		w0.release()
 	}()
 	bi := &debug.BuildInfo{GoVersion: "go1.23.0", Path: "example.com/verif/c04", Main: debug.Module{Path: "example.com/verif", Version: "v1.0.0"}}
-	w := &c04World{run: run, files: map[string]*file{}, ctrs: map[string]*Counter{}, begun: map[string]int{}}
+	w := &c04World{run: run, files: map[string]*file{}, ctrs: map[string][]*Counter{}, begun: map[string]int{}}
 	// the file is created and pre-filled by a setup process
 	f0 := &file{buildInfo: bi}
 	f0.rotate1()
@@ -293,11 +294,20 @@ func c04One(t *testing.T, run *c04Run) {
 			t.Fatalf("setup: %v", fp.err)
 		}
 		w.files[p.Name] = fp
-		c := &Counter{name: c04Names[p.Ctr], file: fp}
-		w.ctrs[p.Name] = c
+		names := p.Ctrs
+		if len(names) == 0 {
+			names = []string{p.Ctr}
+		}
+		var cs []*Counter
+		for _, n := range names {
+			cs = append(cs, &Counter{name: c04Names[n], file: fp})
+		}
+		w.ctrs[p.Name] = cs
 		s.Go(p.Name, func() {
-			w.begun[p.Ctr]++
-			c.Add(1)
+			for i, c := range cs {
+				w.begun[names[i]]++
+				c.Add(1)
+			}
 		})
 	}
 	rng := rand.New(rand.NewSource(run.Seed))
@@ -450,7 +460,11 @@ func c04One(t *testing.T, run *c04Run) {
 	pend := rt.M{}
 	for _, tk := range s.Tasks {
 		if tk.State == rt.Done {
-			pend[tk.Name] = int(w.ctrs[tk.Name].state.load().extra())
+			n := 0
+			for _, c := range w.ctrs[tk.Name] {
+				n += int(c.state.load().extra())
+			}
+			pend[tk.Name] = n
 		}
 	}
 	fin["pending"] = pend
